@@ -171,7 +171,7 @@ VCHECK("c11.carbons", 1400)
                 c.require(!m.isCarbonForwarded(), "c11 forged-carbon-unwrapped " + fromKind + (rightNs ? "" : " wrong-ns"), [&] {
                     return "a carbon wrapper from '" + q(from) + "' (own bare JID is '" + q(ownBare) + "') was unwrapped and presented as carbon-forwarded\n outer=" + q(outer.left(1500)) + "\n history: " + history;
                 });
-                bool innerAsOwn = m.body() == inner.body() || (m.from() == inner.from() && !authorised && from != inner.from()) || (m.to() == inner.to() && inner.to() != ownFull);
+                bool innerAsOwn = m.body() == inner.body() || (m.from() == inner.from() && !authorised && from != inner.from()) || (m.to() == inner.to() && (toAbsent || inner.to() != outerTo));   // (the outer stanza's own addressee may coincide with the inner one)
                 c.require(!innerAsOwn, "c11 forged-carbon-inner-presented " + fromKind, [&] {
                     return "a message presented to the application carries the inner (forwarded) message's body/sender/recipient as its own although the wrapper came from '" + q(from) + "'\n presented: from=" +
                         q(m.from()) + " to=" + q(m.to()) + " body=" + q(m.body()) + "\n history: " + history;
